@@ -207,13 +207,23 @@ func liveReferrers(v ssa.Value) int {
 	return n
 }
 
-func c14DecoderErrors(c *Ctx) {
+func c14DecoderErrors(c *Ctx, only ...string) {
 	w := c.w
 	rule := "decoder-errors"
+	if len(only) == 0 {
+		ruleNumberParsing(c, rule, 3, "parseHostPort", "parseViaParam", "ParseCSeq")
+	}
 	set := decoderSet(w)
 	n := 0
+	want := map[string]bool{}
+	for _, o := range only {
+		want[o] = true
+	}
 	for _, fn := range w.All {
 		if !set[fn] {
+			continue
+		}
+		if len(want) > 0 && !want[w.fname(fn)] {
 			continue
 		}
 		c.Fns[w.fname(fn)] = true
@@ -244,10 +254,19 @@ func c14DecoderErrors(c *Ctx) {
 				}
 			}
 			c.check(used, rule, key, w.ipos(cs.In), "error result is tested or returned", "the error result of "+cs.Name+" is discarded inside a decoder: malformed or unsupported input is silently truncated instead of being rejected")
+			// and a decoder that can fail itself fails when its sub-decoder does: skipping the element that failed
+			// (continue) re-encodes the header without it
+			if used && errIndexOfFn(fn) >= 0 {
+				okP, why := w.errPropagated(fn, call)
+				c.check(okP, rule, key+"/propagated", w.ipos(cs.In), "a failing sub-decoder makes the decoder fail", "a failure of "+cs.Name+" does not make "+w.fname(fn)+" fail ("+why+"): the element that could not be decoded is dropped and the header is re-encoded without it")
+			}
 		}
 	}
-	if n < 15 {
+	if len(only) == 0 && n < 15 {
 		c.undecided(rule, "floor", "-", fmt.Sprintf("only %d error-returning calls found in decoders (expected >= 15)", n))
+	}
+	if len(only) > 0 && n < 2 {
+		c.undecided(rule, "floor", "-", fmt.Sprintf("only %d error-returning calls found in %v (expected >= 2)", n, only))
 	}
 }
 
@@ -1299,4 +1318,15 @@ func (w *World) sizedFill(fn *ssa.Function, st *ssa.Store, ref string) bool {
 		}
 	}
 	return false
+}
+
+// errIndexOfFn: position of the error result of fn, -1 if it has none.
+func errIndexOfFn(fn *ssa.Function) int {
+	res := fn.Signature.Results()
+	for i := res.Len() - 1; i >= 0; i-- {
+		if res.At(i).Type().String() == "error" {
+			return i
+		}
+	}
+	return -1
 }
